@@ -410,11 +410,14 @@ Section Computers.
     | _ => Fail 1
     end.
 
+  Definition valign_keywords : list string := ["baseline"; "middle"; "text-top"; "text-bottom"; "top"; "bottom"].
+  Definition valign_keyword (s : string) : bool := mem_S s valign_keywords || (s ==s "super") || (s ==s "sub").
+
   (* computed_values.go:929-953 verticalAlign (percentages need the strut: not modelled) *)
   Definition vertical_align (v : value) : prog value :=
     match v with
     | VDim s q u =>
-        if mem_S s ["baseline"; "middle"; "text-top"; "text-bottom"; "top"; "bottom"]
+        if mem_S s valign_keywords
         then Ret (VDim s 0 0)
         else if s ==s "super" then fsz <- own_fs ;; Ret (VDim "" (mul ar fsz (cst (1 # 2))) U_Scalar)
         else if s ==s "sub" then fsz <- own_fs ;; Ret (VDim "" (mul ar fsz (cst (- 1 # 2))) U_Scalar)
@@ -495,7 +498,7 @@ Section Computers.
     | KPoint _ => match v with VPoint _ u1 _ u2 => negb (uses_metrics u1 || uses_metrics u2) | _ => true end
     | KVerticalAlign =>
         match v with
-        | VDim s _ u => (negb (s ==s "")) || (negb (u =? U_Perc) && negb (uses_metrics u))
+        | VDim s _ u => valign_keyword s || (negb (u =? U_Perc) && negb (uses_metrics u))
         | VInfPx => false | _ => true end
     | KLength | KColumnWidth | KGap | KTabSize | KWordSpacing | KBleed =>
         match v with VDim _ _ u => negb (uses_metrics u) | _ => true end
